@@ -4,26 +4,36 @@ The loop gets a default executor with ONE worker thread, so a no-op job submitte
 is already queued: `barrier()` is then a wall-clock-free way to wait for "everything submitted so far has run", and
 `bounded()` drives a coroutine for at most N barriers and reports a hang instead of waiting on a timeout.
 
-Fork safety: the runner replays regression cases in the parent before it forks the shard workers; threads do not
-survive a fork, so the loop (and its executor) is keyed by pid and rebuilt in a child.
+No state outlives a case: `run_fresh(make_coro)` builds a new loop and a new one-thread executor, runs the coroutine,
+cancels left-overs, joins the worker thread and closes the loop. (The runner replays regression cases in the parent
+before it forks the shard workers; a loop or executor thread kept alive across that fork would be unusable in the
+children, and a parent with extra threads at fork time is asking for trouble.)
 """
 import asyncio
 import concurrent.futures
-import os
-
-_STATE = {}
 
 
-def prepare_loop():
-    pid = os.getpid()
-    loop = _STATE.get(pid)
-    if loop is None or loop.is_closed():
-        _STATE.clear()
-        loop = asyncio.new_event_loop()
-        asyncio.set_event_loop(loop)
-        loop.set_default_executor(concurrent.futures.ThreadPoolExecutor(max_workers=1))
-        _STATE[pid] = loop
-    return loop
+def run_fresh(make_coro):
+    """make_coro(loop) -> coroutine; returns its result"""
+    loop = asyncio.new_event_loop()
+    executor = concurrent.futures.ThreadPoolExecutor(max_workers=1)
+    loop.set_default_executor(executor)
+    asyncio.set_event_loop(loop)
+    try:
+        try:
+            return loop.run_until_complete(make_coro(loop))
+        finally:
+            for _ in range(3):
+                pending = [t for t in asyncio.all_tasks(loop) if not t.done()]
+                if not pending:
+                    break
+                for t in pending:
+                    t.cancel()
+                loop.run_until_complete(asyncio.gather(*pending, return_exceptions=True))
+    finally:
+        executor.shutdown(wait=True)
+        asyncio.set_event_loop(None)
+        loop.close()
 
 
 async def barrier(loop):
